@@ -139,6 +139,8 @@ def outcome(jp, env, q, doc, nondet, cap=400, line_budget=None):
             finally:
                 sys.settrace(old)
             LINES.append(count[0])
+            if res[0] == "overbudget":
+                _TIMEOUTS[0] += 1          # counts like an evaluation that did not finish: the check itself stays bounded
             return res
 
         # the first two evaluations that do not finish get 20 s each, later ones 3 s: the check itself stays bounded
@@ -149,7 +151,7 @@ def outcome(jp, env, q, doc, nondet, cap=400, line_budget=None):
 
     if not nondet:
         return {one()}
-    results, _complete, _runs = chooser.explore(jp, one, cap=cap, stop=lambda r: r[0] == "timeout")
+    results, _complete, _runs = chooser.explore(jp, one, cap=cap, stop=lambda r: r[0] in ("timeout", "overbudget"))
     return set(results)
 
 
